@@ -116,6 +116,8 @@ void   checkpoint(State& S, bool full_walk);
 size_t conservation_count(State& S);
 void   check_conservation(State& S, const char* when, const char* refutes);
 void   walk_compare(State& S, const char* refutes);
+vf::Blk* accept_foreign(State& S, void* p, size_t n);
+void   forget_foreign(State& S, vf::Blk* b);
 vf::Blk* do_alloc(State& S, int force_ep = -1, size_t force_size = SIZE_MAX);
 void   do_free(State& S, vf::Blk* b, int force_ep = -1);
 void   free_all(State& S);
